@@ -16,6 +16,7 @@ import (
 
 	"github.com/Breeze0806/gobinlog/replication"
 	"verif/chk"
+	"verif/e2"
 	"verif/e3/rowdec"
 	"verif/e3/util"
 	"verif/ref"
@@ -622,6 +623,8 @@ func run(r *chk.Run) {
 	r.Assume("the gobinlog-level mapping to ColumnData.IsEmpty / Data == nil is decided by the end-to-end properties (C01); this check decides the replication-level facts it is derived from")
 	r.Assume("an event whose images contain no present column is generated with zero rows (such a row occupies zero bytes)")
 	r.Assume("TINY/MEDIUM/LONG_BLOB type codes are not written to table maps by a server (BLOB with 1..4 length bytes is)")
+	// end-to-end half (engine E2): NULL / empty / absent as the handler sees them
+	e2.RunNullEmptyAbsent(r)
 	r.SetExhaustive(true)
 }
 
@@ -633,6 +636,8 @@ func replay(kind string, input json.RawMessage) (bool, string) {
 	defer guard.Stop()
 	guard.Enter(0, kind)
 	switch kind {
+	case "history":
+		return e2.ReplayHistory(kind, input)
 	case "cell":
 		var c Case1
 		if err := json.Unmarshal(input, &c); err != nil {
